@@ -152,7 +152,7 @@ func runC14(e *Env) {
 		// external Unsubscribe once n values were seen (or after a while if the pipeline is silent)
 		e.RunUntil(func() bool { return len(rec.Events) >= n }, 40)
 		if e.K.Capped() {
-			e.Violate("C14", "step-cap", "the pipeline never became quiescent (busy loop) while waiting for values")
+			e.Probe("capped-before-termination")
 			return
 		}
 		if !h.Returned || h.S == nil {
@@ -177,16 +177,28 @@ func runC14(e *Env) {
 		}
 	default:
 		if !e.RunUntil(terminated, 60) {
-			if e.K.Capped() {
-				e.Violate("C14", "step-cap", "the pipeline never became quiescent (busy loop): "+rec.Trace())
+			if e.K.Capped() && terminated() {
+				e.Violate("C14", "busy-loop-after-termination", "downstream terminated but the pipeline keeps running without ever becoming quiescent: "+rec.Trace())
+				return
 			}
+			// an unbounded retry over a failing source that never satisfies the terminator is a busy loop
+			// the user asked for, not a cancellation failure
 			e.Probe("never-terminated")
 			return
 		}
 	}
 	if e.K.Capped() {
-		e.Violate("C14", "step-cap", "the pipeline never became quiescent after downstream terminated (busy loop)")
+		if terminated() || unsubRet {
+			e.Violate("C14", "busy-loop-after-termination", "downstream terminated but the pipeline keeps running without ever becoming quiescent: "+rec.Trace())
+		}
 		return
+	}
+	for _, st := range sc.Stages {
+		if st.Op == "DelayEach" {
+			// DelayEach sleeps on the caller's goroutine before forwarding: a value already handed to it
+			// may keep Subscribe busy for one more delay; that is a bounded wait on time, not on upstream
+			e.SettleFor(4 * Unit)
+		}
 	}
 	e.Probe("terminated")
 	// The downstream side has terminated and the system is quiescent WITHOUT the clock having moved since:
@@ -244,10 +256,37 @@ func runC14Ctx(e *Env) {
 	if e.K.Capped() {
 		return
 	}
-	e.Go("canceller", func() { cancel() })
+	cancelStep := 0
+	e.Go("canceller", func() { cancel(); cancelStep = e.Step() })
 	e.Settle()
 	if e.K.Capped() {
-		e.Violate("C14", "step-cap", "busy loop after context cancellation")
+		e.Violate("C14", "busy-loop-after-termination", "busy loop after context cancellation")
+		return
+	}
+	if sc.Sub == "Retry" {
+		// Retry is promised to stop retrying: the attempt in progress may run to its end (the scripted
+		// source does not watch the context), but no new attempt may start and everything ends then
+		e.SettleFor(20 * Unit)
+		if e.K.Capped() {
+			e.Violate("C14", "busy-loop-after-termination", "busy loop after context cancellation")
+			return
+		}
+		for _, at := range src.SubAt {
+			if at > cancelStep {
+				// the check before an attempt and the cancellation may race by a few steps; an attempt
+				// that starts after the cancel call returned and settled is a new attempt
+				e.Violate("C14", "retry-after-cancel", fmt.Sprintf("Retry started a new attempt at step %d, after the context had been cancelled at step %d", at, cancelStep))
+			}
+		}
+		if !h.Returned {
+			e.Violate("C14", "subscribe-blocked", "Retry: context cancelled and the attempt in progress ended, but Subscribe has not returned")
+		}
+		if src.Live != 0 {
+			e.Violate("C14", "upstream-not-cancelled", "Retry: context cancelled but the source is still subscribed after the attempt ended")
+		}
+		if rec.Terminal() == 0 {
+			e.Violate("C14", "not-closed-after-cancel", "Retry: no terminal notification after cancellation: "+rec.Trace())
+		}
 		return
 	}
 	if !h.Returned {
